@@ -507,6 +507,24 @@ func (m *C12Mon) OnBlock(blk *hist.Block) []Finding {
 			m.poolDonors = true
 		}
 	}
+	// what a delegator takes out of its accrued rewards (withdrawal or reinvestment) leaves its reward balance;
+	// a delegator with no active delegation accrues nothing
+	rwOut := map[string]*big.Int{}
+	for _, t := range blk.Txs {
+		if t.Call.Code == 0 && (t.Kind == "REWARDS_WITHDRAW_NETWORK_DELEGATE" || t.Kind == "REWARDS_REINVEST_NETWORK_DELEGATE") {
+			addTo(rwOut, txAddr(t, "delegator", "delegationAddress"), txAmount(t, "amount"))
+		}
+	}
+	for a, o := range rwOut {
+		pb, cb := amountAt(blk.Prev, "delegRwz_balance_"+a), amountAt(blk.Cur, "delegRwz_balance_"+a)
+		accrued := new(big.Int).Add(new(big.Int).Sub(cb, pb), o)
+		if accrued.Sign() < 0 {
+			continue // (more left the balance than the transactions took: not this rule's business)
+		}
+		if coinAt(blk.Prev, "deleg_a_"+a).Sign() == 0 && accrued.Sign() != 0 {
+			out = append(out, Finding{"C12", "C12/reward-balance/not-reduced-by-what-was-taken", fmt.Sprintf("block %d: %s took %s out of its accrued rewards (withdrawal / reinvestment); its reward balance went from %s to %s although it has no active delegation that could have accrued the difference %s", blk.H, a, o, pb, cb, accrued)})
+		}
+	}
 	addrs := map[string]bool{}
 	for k := range blk.Prev {
 		if strings.HasPrefix(k, "deleg_a_") {
